@@ -62,9 +62,13 @@ Definition kmer_ops (c : kcfg) : list (string * handler) :=
     ("k.decode"%string, fun a => match a with [VN s] => Some (ofNs (decode (kK c) s)) | _ => None end)
   ].
 
+(* the operation name is checked BEFORE the arguments are converted: `cfg_of` builds unary naturals, and an
+   operation of another table may carry a 64-bit number in the second position *)
 Definition d_kmer (op : string) (v : val) : option val :=
+  if negb (prefix "k." op) then None else
   match v with
   | VL (VN w :: VN k :: rest) =>
+      if (129 <? w) || (65 <? k) then None else
       match lookup op (kmer_ops (cfg_of w k)) with Some h => h rest | None => None end
   | _ => None
   end.
@@ -103,6 +107,7 @@ Definition spec_kmer_ops (K : nat) : list (string * handler) :=
     ("s.k.is_palindrome"%string, fun a => match a with [VL l] => match vlistN l with Some d => Some (ofbool (is_palindrome d)) | None => None end | _ => None end)
   ].
 Definition d_spec_kmer (op : string) (v : val) : option val :=
+  if negb (prefix "s.k." op) then None else
   match v with
   | VL (VN k :: rest) => match lookup op (spec_kmer_ops (N.to_nat k)) with Some h => h rest | None => None end
   | _ => None
